@@ -176,3 +176,29 @@ Proof.
     destruct (construct_secs desc tw rest within (S idx) ts) as [[[ts' wi] n]|e] eqn:E; cbn [bind] in H; [|discriminate].
     inversion H; subst. cbn. f_equal. apply (IH _ _ _ _ E).
 Qed.
+
+(* DEDUCED copy_all: whenever the layout deduced for the preprocessed text is copy_all -- no Twp/Rge
+   or no section word can be found in it -- the result is exactly one tract holding the whole text *)
+Theorem deduced_copy_all text d ocr rc segment sec_within ts p ptext fixed :
+  plss_preprocess text d ocr = Ok (ptext, fixed) -> deduce_layout ptext = COPY_ALL ->
+  plss_parser text None d ocr None rc segment sec_within ts = Ok p ->
+  po_layout p = COPY_ALL /\ exists t, po_tracts p = [t] /\ to_desc t = po_text p.
+Proof.
+  intros Epp Hd. unfold plss_parser. rewrite Epp. cbn [bind fst snd].
+  unfold parse_text. rewrite Hd, copy_all_eqb. cbn [negb].
+  destruct (chunks_of segment ptext COPY_ALL (d_mc_ns d) (d_mc_ew d)) as [ch|e] eqn:Ech; cbn [bind]; [|discriminate].
+  apply chunks_of_copy_all in Ech. subst ch. cbn [fst snd].
+  match goal with |- context [parse_chunks [ptext] ?l ?px ?st0] => destruct (parse_chunks [ptext] l px st0) as [st|e] eqn:Epc end; cbn [bind]; [|discriminate].
+  apply parse_chunks_one in Epc. destruct Epc as (c & Hc & Htc & Hun). cbn [ps_tc ps_unused app] in Htc, Hun.
+  destruct (parse_chunk_copy_all _ _ _ Hc) as (x & tw & Hct & Hcu). rewrite Hct in Htc. rewrite Hcu in Hun.
+  intros H. destruct (finish_one _ _ _ _ _ _ _ _ Htc Hun H) as (Hl & Ht & t & Hp & Hdesc).
+  split; [exact Hl|]. exists t. split; [exact Hp|]. rewrite Ht. exact Hdesc.
+Qed.
+
+Lemma deduce_copy_all_no_twprge ptext :
+  search twprge_regex twprge_regex_ng (strip ptext) = None -> deduce_layout ptext = COPY_ALL.
+Proof. intros H. unfold deduce_layout. rewrite H. destruct (search no_num_sec_regex _ _); reflexivity. Qed.
+
+Lemma deduce_copy_all_no_sec ptext :
+  search no_num_sec_regex no_num_sec_regex_ng (strip ptext) = None -> deduce_layout ptext = COPY_ALL.
+Proof. intros H. unfold deduce_layout. rewrite H. reflexivity. Qed.
